@@ -33,7 +33,7 @@ LEANCHECK = ['XsVerif.Model.Upa', 'XsVerif.Lemmas.Upa', 'XsVerif.Model.CheckMode
              'XsVerif.Lemmas.CheckModelFlat', 'XsVerif.Props.C15']
 RULE = ('case = (XSD version, content model). Models: the complete family with ≤2 leaves over {a,b}, sequence/choice '
         'nested to depth 2, occurrences from {1,?,*,{1,2}} (46k models per version, complete in the thorough tier, sampled '
-        'in the quick tier), every choice{1,1} of ≤3 plain element references (the fragment of checkModel_refines_partial), '
+        'in the quick tier), every choice of ≤3 plain element references (the fragment of checkModel_refines_partial), '
         'seeded members of the same family with all of {1,?,*,+,{2,2},{1,2},{0,0}}, with a wildcard '
         'leaf, and with 3 leaves, '
         'all pairs of leaves from {a, substitution head and members, 10 wildcard forms} in two-item sequences/choices, an Element-Declarations-Consistent family with local '
@@ -258,10 +258,10 @@ def families(ctx: Ctx, with_driver: bool = True):
         yield 'exh2-allocc', v11, [c15.small_random(rng, rng.choice([1, 2, 2, 2]), ['a', 'b'], cm.OCC_SMALL)
                                    for _ in range(ctx.pick(1000, 15000))]
         yield 'exh2-any', v11, [c15.small_random(rng, 2, ['a'], cm.OCC_SMALL, any_p=0.5) for _ in range(ctx.pick(800, 15000))]
-        yield 'exh3-sample', v11, [c15.small_random(rng, 3, ['a', 'b'], occ3) for _ in range(ctx.pick(2000, 30000))]
-        yield 'random', v11, [c15.random_model(rng, v11) for _ in range(ctx.pick(2000, 30000))]
+        yield 'exh3-sample', v11, [c15.small_random(rng, 3, ['a', 'b'], occ3) for _ in range(ctx.pick(2000, 25000))]
+        yield 'random', v11, [c15.random_model(rng, v11) for _ in range(ctx.pick(2000, 25000))]
         refs = []
-        while len(refs) < ctx.pick(1000, 15000):
+        while len(refs) < ctx.pick(1000, 10000):
             m = c15.with_refs(rng, c15.random_model(rng, v11, max_depth=3), 0.6)
             if c15.has_refs(m):
                 refs.append(m)
